@@ -970,3 +970,221 @@ Example count_bounds_needs_contiguous_ids :
       (trace init_state None [ (true, env_of_tables (Good [1]) [mkTrow 1 true [mkProw 1 (Good 1) 0 [10]]] []) ])
   = [ [(1, 1, 10, 1)] ].
 Proof. vm_compute. reflexivity. Qed.
+
+(* ---------------------------------------------------------------------------------------------
+   the storage side (added 2026-10-02): deletions are sent blocking and always arrive; a broker-offset update arrives
+   iff storage takes it within the 1 s timeout; the module's behaviour does not depend on storage
+   --------------------------------------------------------------------------------------------- *)
+Definition sreq_eq_dec (x y : sreq) : {x = y} + {x <> y}.
+Proof. repeat decide equality. Defined.
+
+(* hypothesis of C11's "every successful answer produces exactly one update": storage took every request of the
+   cycle within the timeout *)
+Definition storage_in_time (sv : storage_beh) (o : cycle_out) : Prop :=
+  forall u, In u (co_updates o) -> sv u = true.
+
+Lemma storage_in_time_prompt o : storage_in_time prompt o.
+Proof. intros u _. reflexivity. Qed.
+
+Lemma filter_delivered_offers sv us :
+  map (fun f => SBrokerOffset (of_update f)) (filter delivered (map (fun u => mkOffer u (sv u)) us))
+  = map SBrokerOffset (filter sv us).
+Proof.
+  induction us as [|u us IH]; simpl; auto. destruct (sv u); simpl; rewrite IH; reflexivity.
+Qed.
+
+Lemma received_eq sv o :
+  received sv o = map SDeleteTopic (co_deletes o) ++ map SBrokerOffset (filter sv (co_updates o)).
+Proof. unfold received, offers. rewrite filter_delivered_offers. reflexivity. Qed.
+
+Lemma flat_deletes_app ds us :
+  flat_map (fun r => match r with SDeleteTopic t => [t] | SBrokerOffset _ => [] end)
+           (map SDeleteTopic ds ++ map SBrokerOffset us) = ds.
+Proof.
+  rewrite flat_map_app.
+  assert (H1 : forall l, flat_map (fun r => match r with SDeleteTopic t => [t] | SBrokerOffset _ => [] end)
+                                  (map SDeleteTopic l) = l).
+  { induction l as [|a l IH]; simpl; [|rewrite IH]; reflexivity. }
+  assert (H2 : forall l, flat_map (fun r => match r with SDeleteTopic t => [t] | SBrokerOffset _ => [] end)
+                                  (map SBrokerOffset l) = []).
+  { induction l as [|a l IH]; simpl; auto. }
+  rewrite H1, H2, app_nil_r. reflexivity.
+Qed.
+
+Lemma flat_updates_app ds us :
+  flat_map (fun r => match r with SBrokerOffset u => [u] | SDeleteTopic _ => [] end)
+           (map SDeleteTopic ds ++ map SBrokerOffset us) = us.
+Proof.
+  rewrite flat_map_app.
+  assert (H1 : forall l, flat_map (fun r => match r with SBrokerOffset u => [u] | SDeleteTopic _ => [] end)
+                                  (map SDeleteTopic l) = []).
+  { induction l as [|a l IH]; simpl; auto. }
+  assert (H2 : forall l, flat_map (fun r => match r with SBrokerOffset u => [u] | SDeleteTopic _ => [] end)
+                                  (map SBrokerOffset l) = l).
+  { induction l as [|a l IH]; simpl; [|rewrite IH]; reflexivity. }
+  rewrite H1, H2. reflexivity.
+Qed.
+
+(* S.1  Whatever storage does, it receives exactly the deletions the cycle emits (the send of line 197 blocks). *)
+Theorem received_deletes_all sv o : received_deletes sv o = co_deletes o.
+Proof. unfold received_deletes. rewrite received_eq. apply flat_deletes_app. Qed.
+
+(* S.2  ... and exactly those broker-offset updates it took within the timeout. *)
+Theorem received_updates_delivered sv o : received_updates sv o = filter sv (co_updates o).
+Proof. unfold received_updates. rewrite received_eq. apply flat_updates_app. Qed.
+
+Lemma in_received_delete sv o t : In (SDeleteTopic t) (received sv o) <-> In t (co_deletes o).
+Proof.
+  rewrite received_eq, in_app_iff, !in_map_iff. split.
+  - intros [[x [Hx Hin]]|[x [Hx _]]]; [inversion Hx; subst; auto | discriminate].
+  - intros H. left. eauto.
+Qed.
+
+Lemma in_received_update sv o u : In (SBrokerOffset u) (received sv o) <-> In u (co_updates o) /\ sv u = true.
+Proof.
+  rewrite received_eq, in_app_iff, !in_map_iff. split.
+  - intros [[x [Hx _]]|[x [Hx Hin]]]; [discriminate|]. inversion Hx; subst. apply filter_In in Hin. auto.
+  - intros H. right. exists u. split; auto. apply filter_In. auto.
+Qed.
+
+Lemma NoDup_filter_map {A B} (f : A -> B) (q : A -> bool) (l : list A) :
+  NoDup (map f l) -> NoDup (map f (filter q l)).
+Proof.
+  induction l as [|a l IH]; simpl; intros Hn; [constructor|]. inversion Hn; subst.
+  destruct (q a); simpl; auto. constructor; auto.
+  rewrite in_map_iff. intros [y [Hy Hin]]. apply filter_In in Hin as [Hin _].
+  apply H1. apply in_map_iff. eauto.
+Qed.
+
+Lemma NoDup_of_map {A B} (f : A -> B) (l : list A) : NoDup (map f l) -> NoDup l.
+Proof.
+  induction l as [|a l IH]; simpl; intros Hn; [constructor|]. inversion Hn; subst.
+  constructor; auto. intros Hin. apply H1. apply in_map. auto.
+Qed.
+
+(* S.3  Storage receives no request twice within a cycle. *)
+Theorem received_nodup st e o sv : wf st -> cycle st e = Done o -> NoDup (received sv o).
+Proof.
+  intros Hw Hc. rewrite received_eq.
+  destruct (deletes_cycle _ _ _ Hw Hc) as [_ Hnd]. destruct (answer_to_update _ _ _ Hw Hc) as [_ Hnu].
+  apply NoDup_app_intro.
+  - apply NoDup_map_inj_on; auto. intros x y _ _ H. inversion H; auto.
+  - apply NoDup_map_inj_on.
+    + apply (NoDup_of_map upd_key). apply NoDup_filter_map. auto.
+    + intros x y _ _ H. inversion H; auto.
+  - intros x H1 H2. apply in_map_iff in H1 as [t [<- _]]. apply in_map_iff in H2 as [u [Hu _]]. discriminate.
+Qed.
+
+(* C12 with a stalling storage.  In every cycle of every run and for EVERY storage behaviour: the storage module
+   receives SetDeleteTopic t iff this cycle performed a complete refresh whose topic list lacks t and the last complete
+   refresh before it listed t; it receives it exactly once. *)
+Theorem deletion_reaches_storage_once l en sv t :
+  In en (trace init_state None l) ->
+  (In (SDeleteTopic t) (received sv (en_out en)) <->
+     exists ts, refreshed (en_pre en) (en_env en) = Some ts /\ ~ In t ts /\ In t (ghost_topics (en_ghost en)))
+  /\ (In (SDeleteTopic t) (received sv (en_out en)) ->
+      count_occ sreq_eq_dec (received sv (en_out en)) (SDeleteTopic t) = 1%nat).
+Proof.
+  intros Hin. destruct (delete_exactly_once l en t Hin) as [Hiff _].
+  destruct (trace_inv _ _ _ _ inv_init Hin) as [Hi Hc]. split.
+  - rewrite in_received_delete. exact Hiff.
+  - intros H. apply NoDup_count_occ'; auto. eapply received_nodup; eauto. apply Hi.
+Qed.
+
+(* C11 with a stalling storage.  The storage module receives SetBrokerOffset (t, p, off, c) iff that update was due
+   (asked in this cycle, successful answer with first offset off, c the partition count of the last complete metadata
+   read) AND storage took the request within the timeout. *)
+Theorem answer_to_update_delivered l en sv :
+  In en (trace init_state None l) ->
+  forall t p off c, In (SBrokerOffset (t, p, off, c)) (received sv (en_out en)) <->
+     (exists b ans rest ge ps, In (b, t, p) (co_asks (en_out en)) /\ e_answer (en_env en) b = Good ans
+        /\ ans t p = (0, off :: rest)
+        /\ ghost_now en = Some ge /\ e_parts ge t = Good ps /\ c = Z.of_nat (length ps))
+     /\ sv (t, p, off, c) = true.
+Proof.
+  intros Hin t p off c. destruct (answer_to_update_run l en Hin) as [Hiff _].
+  rewrite in_received_update, Hiff. reflexivity.
+Qed.
+
+(* ... so under the hypothesis "storage took the requests within the timeout" every successful answer reaches storage
+   as exactly one update, and nothing else does *)
+Theorem answer_to_update_in_time l en sv :
+  In en (trace init_state None l) -> storage_in_time sv (en_out en) ->
+  (forall t p off c, In (SBrokerOffset (t, p, off, c)) (received sv (en_out en)) <->
+     exists b ans rest ge ps, In (b, t, p) (co_asks (en_out en)) /\ e_answer (en_env en) b = Good ans
+        /\ ans t p = (0, off :: rest)
+        /\ ghost_now en = Some ge /\ e_parts ge t = Good ps /\ c = Z.of_nat (length ps))
+  /\ NoDup (map upd_key (received_updates sv (en_out en))).
+Proof.
+  intros Hin Hs. destruct (answer_to_update_run l en Hin) as [Hiff Hn]. split.
+  - intros t p off c. rewrite in_received_update, <- Hiff. split; [tauto|]. intros H. split; auto.
+  - rewrite received_updates_delivered. apply NoDup_filter_map. auto.
+Qed.
+
+(* without that hypothesis: what arrives is still never fabricated or stale, at most one per partition, and an update
+   that was due is missing only because of the timeout *)
+Theorem stalled_storage_sound l en sv :
+  In en (trace init_state None l) ->
+  (forall u, In (SBrokerOffset u) (received sv (en_out en)) -> In u (co_updates (en_out en)))
+  /\ (forall u, In u (co_updates (en_out en)) -> ~ In (SBrokerOffset u) (received sv (en_out en)) -> sv u = false)
+  /\ NoDup (map upd_key (received_updates sv (en_out en))).
+Proof.
+  intros Hin. destruct (answer_to_update_run l en Hin) as [_ Hn]. split; [|split].
+  - intros u H. apply in_received_update in H. tauto.
+  - intros u Hu Hnot. destruct (sv u) eqn:E; auto. exfalso. apply Hnot. apply in_received_update. auto.
+  - rewrite received_updates_delivered. apply NoDup_filter_map. auto.
+Qed.
+
+(* The module does not look at what storage does: forgetting the storage side of run_s gives run. *)
+Definition forget_storage (x : bool * outcome (cycle_out * list sreq)) : bool * outcome cycle_out :=
+  (fst x, match snd x with Done (o, _) => Done o | Crash => Crash end).
+
+Theorem run_s_forget l : forall st, map forget_storage (run_s st l) = run st (map fst l).
+Proof.
+  induction l as [|[[tk e] sv] r IH]; simpl; intros st; auto.
+  destruct (cycle (tick tk st) e) as [o|]; simpl; [rewrite IH|]; reflexivity.
+Qed.
+
+(* run_s (what the driver prints for storage-scripted cases) is the trace the theorems speak about, each cycle paired
+   with its storage behaviour *)
+Theorem run_s_is_trace l : forall st g,
+  exists tail,
+    run_s st l = map (fun x => (fetchMetadata (en_pre (fst x)), Done (en_out (fst x), received (snd x) (en_out (fst x)))))
+                     (combine (trace st g (map fst l)) (map snd l)) ++ tail
+    /\ (tail = [] \/ exists f, tail = [(f, Crash)]).
+Proof.
+  induction l as [|[[tk e] sv] r IH]; simpl; intros st g.
+  - exists []. auto.
+  - destruct (cycle (tick tk st) e) as [o|] eqn:Ec.
+    + destruct (IH (co_state o) (ghost_next (tick tk st) e g)) as [tail [H1 H2]].
+      exists tail. simpl. rewrite H1. auto.
+    + exists [(fetchMetadata (tick tk st), Crash)]. simpl. eauto.
+Qed.
+
+(* non-vacuity: the example run with a storage module that is busy in cycles 0 and 3 (takes no broker-offset update
+   within the timeout).  The deletion of topic 2 in cycle 3 arrives all the same, the updates of those cycles are lost,
+   the module's own trajectory (flags, requests) is the one of ex_run. *)
+Definition ex_run_s : list (bool * env * storage_beh) :=
+  map (fun x => (fst x, if (snd x =? 0)%nat || (snd x =? 3)%nat then (fun _ => false) else prompt))
+      (combine ex_run (seq 0 7)).
+
+Example received_ex :
+  map (fun x => match snd x with Done (_, rs) => rs | Crash => [] end) (run_s init_state ex_run_s)
+  = [ [];
+      [];
+      [SBrokerOffset (2, 0, 20, 1); SBrokerOffset (1, 0, 100, 3); SBrokerOffset (1, 2, 300, 3)];
+      [SDeleteTopic 2];
+      [SBrokerOffset (1, 0, 100, 3); SBrokerOffset (1, 2, 300, 3)];
+      [SBrokerOffset (2, 0, 20, 1); SBrokerOffset (1, 0, 100, 3); SBrokerOffset (1, 2, 300, 3)];
+      [SDeleteTopic 2; SBrokerOffset (1, 0, 100, 3); SBrokerOffset (1, 2, 300, 3)] ].
+Proof. vm_compute. reflexivity. Qed.
+
+Example run_s_forget_ex : map forget_storage (run_s init_state ex_run_s) = run init_state ex_run.
+Proof. vm_compute. reflexivity. Qed.
+
+Example storage_in_time_ex :
+  match nth_error ex_trace 5 with
+  | Some en => storage_in_time prompt (en_out en) /\ length (received prompt (en_out en)) = 3%nat
+  | None => False
+  end.
+Proof. simpl. split; [apply storage_in_time_prompt | vm_compute; reflexivity]. Qed.
